@@ -139,14 +139,15 @@ func (mc *Checker) alert(pid peer.ID, metricName string) error {
 		return nil
 	}
 
-	failedMetrics[metricName]++
-
 	alrt := &api.Alert{
 		Metric:      *lastMetric,
 		TriggeredAt: time.Now(),
 	}
 	select {
 	case mc.alertCh <- alrt:
+		// count only an alert that was sent: one refused by a full
+		// channel is raised again by the next check
+		failedMetrics[metricName]++
 		stats.RecordWithTags(
 			mc.ctx,
 			[]tag.Mutator{tag.Upsert(observations.RemotePeerKey, pid.Pretty())},
